@@ -55,7 +55,7 @@ build_specdriver() {
   cd "$BUILD/extracted_spec"
   if [ -f "$VERIF/coq/Spec/C16.vo" ]; then
     if [ ! -x "$BUILD/driver_spec" ] || [ "$VERIF/coq/Spec/C16.vo" -nt "$BUILD/driver_spec" ] \
-       || [ "$VERIF/coq/Spec/C19Grammar.vo" -nt "$BUILD/driver_spec" ] || [ "$VERIF/coq/Spec/C13Doc.vo" -nt "$BUILD/driver_spec" ] || [ "$VERIF/coq/Extract/ExtractSpec.v" -nt "$BUILD/driver_spec" ] \
+       || [ "$VERIF/coq/Spec/C19Grammar.vo" -nt "$BUILD/driver_spec" ] || [ "$VERIF/coq/Spec/C13Doc.vo" -nt "$BUILD/driver_spec" ] || [ "$VERIF/coq/Spec/DocSingleWf.vo" -nt "$BUILD/driver_spec" ] || [ "$VERIF/coq/Extract/ExtractSpec.v" -nt "$BUILD/driver_spec" ] \
        || [ "$VERIF/driver/main.ml" -nt "$BUILD/driver_spec" ]; then
       ( timeout 600 coqc -Q "$VERIF/coq" Slinky "$VERIF/coq/Extract/ExtractSpec.v" > "$BUILD/logs/extract_spec.log" 2>&1 \
         && rm -f "$VERIF/coq/Extract/"*.vo "$VERIF/coq/Extract/"*.glob "$VERIF/coq/Extract/".*.aux \
